@@ -11,7 +11,7 @@
 (* `bad` is the Obs verdict evaluated inside the model.                     *)
 (***************************************************************************)
 EXTENDS Integers, Sequences, TLC
-CONSTANTS Enable, Runs, MaxTrig, MaxGet, ResetAtStart, MaxFid
+CONSTANTS Enable, Runs, MaxTrig, MaxGet, ResetAtStart, MaxFid, NSets
 (* --algorithm Cam {
 variables
   is_running = FALSE, triggered = FALSE, frame_wanted = FALSE,
@@ -19,7 +19,10 @@ variables
   lock = "none", waitT = FALSE, waitF = FALSE,
   alive = FALSE, run = 0,
   ntrig = 0, ndeliv = 0, lastHw = -1, bad = "none",
-  stopping = FALSE, getPending = FALSE, inCall = FALSE;
+  stopping = FALSE, getPending = FALSE, inCall = FALSE,
+  \* handshake between simcam_set and the streamer (guarded by the lock): a set waits for the frame in flight,
+  \* the streamer starts no frame while a set waits; waitI = sleepers on streamer.idle
+  is_rendering = FALSE, set_pending = 0, waitI = {}, setting = FALSE;
 macro Acquire(me) { await lock = "none"; lock := me; }
 macro Release() { lock := "none"; }
 
@@ -30,11 +33,17 @@ T0: await alive \/ run = Runs + 1;
 T1: sfid := frame_id;
 L0: while (is_running) {
 L1:   Acquire("S");
+L1s:  if (set_pending > 0) { lock := "none"; waitI := waitI \cup {"S"}; goto L1w; };
 L2:   if (Enable /\ ~triggered) { lock := "none"; waitT := TRUE; goto L2w; }
-      else { triggered := FALSE; lock := "none"; goto L3; };
+      else { triggered := FALSE; is_rendering := TRUE; lock := "none"; goto L3; };
+L1w:  await "S" \notin waitI;
+L1r:  Acquire("S"); goto L1s;
 L2w:  await ~waitT;
 L2r:  Acquire("S"); goto L2;
-L3:   sfid := sfid + 1;            \* render + exposure sleep
+L3:   skip;                        \* render (outside the lock)
+L3a:  await lock = "none";         \* done with the buffers: clear is_rendering under the lock, wake a waiting set
+      is_rendering := FALSE; waitI := {};
+L3b:  sfid := sfid + 1;            \* exposure sleep
 L4:   if (frame_wanted) {
 L5:     await lock = "none";       \* whole critical section is one step
         frame_id := sfid; frame_wanted := FALSE; waitF := FALSE;
@@ -70,6 +79,20 @@ C6:   await ~alive;             \* join
 C9: run := Runs + 1;
 }
 
+\* simcam_set with unchanged settings, called by a second client thread at any time (NSets times)
+fair process (Setter = "Z")
+variables z = 0;
+{
+Z0: while (z < NSets) {
+Z1:   Acquire("Z"); setting := TRUE; set_pending := set_pending + 1;
+Z2:   if (is_rendering) { lock := "none"; waitI := waitI \cup {"Z"}; goto Z2w; } else { goto Z3; };
+Z2w:  await "Z" \notin waitI;
+Z2r:  Acquire("Z"); goto Z2;
+Z3:   set_pending := set_pending - 1;      \* (properties and buffers are replaced here)
+      waitI := {}; lock := "none"; setting := FALSE; z := z + 1;
+    };
+}
+
 fair process (Caller = "G")
 variables g = 0, res = "none";
 {
@@ -99,13 +122,15 @@ GX: skip;
 \* BEGIN TRANSLATION
 VARIABLES pc, is_running, triggered, frame_wanted, frame_id, last_emitted, 
           sfid, lock, waitT, waitF, alive, run, ntrig, ndeliv, lastHw, bad, 
-          stopping, getPending, inCall, k, g, res
+          stopping, getPending, inCall, is_rendering, set_pending, waitI, 
+          setting, k, z, g, res
 
 vars == << pc, is_running, triggered, frame_wanted, frame_id, last_emitted, 
            sfid, lock, waitT, waitF, alive, run, ntrig, ndeliv, lastHw, bad, 
-           stopping, getPending, inCall, k, g, res >>
+           stopping, getPending, inCall, is_rendering, set_pending, waitI, 
+           setting, k, z, g, res >>
 
-ProcSet == {"S"} \cup {"C"} \cup {"G"}
+ProcSet == {"S"} \cup {"C"} \cup {"Z"} \cup {"G"}
 
 Init == (* Global variables *)
         /\ is_running = FALSE
@@ -126,13 +151,20 @@ Init == (* Global variables *)
         /\ stopping = FALSE
         /\ getPending = FALSE
         /\ inCall = FALSE
+        /\ is_rendering = FALSE
+        /\ set_pending = 0
+        /\ waitI = {}
+        /\ setting = FALSE
         (* Process Controller *)
         /\ k = 0
+        (* Process Setter *)
+        /\ z = 0
         (* Process Caller *)
         /\ g = 0
         /\ res = "none"
         /\ pc = [self \in ProcSet |-> CASE self = "S" -> "T0"
                                         [] self = "C" -> "C0"
+                                        [] self = "Z" -> "Z0"
                                         [] self = "G" -> "G0"]
 
 T0 == /\ pc["S"] = "T0"
@@ -143,15 +175,15 @@ T0 == /\ pc["S"] = "T0"
       /\ UNCHANGED << is_running, triggered, frame_wanted, frame_id, 
                       last_emitted, sfid, lock, waitT, waitF, alive, run, 
                       ntrig, ndeliv, lastHw, bad, stopping, getPending, inCall, 
-                      k, g, res >>
+                      is_rendering, set_pending, waitI, setting, k, z, g, res >>
 
 T1 == /\ pc["S"] = "T1"
       /\ sfid' = frame_id
       /\ pc' = [pc EXCEPT !["S"] = "L0"]
       /\ UNCHANGED << is_running, triggered, frame_wanted, frame_id, 
                       last_emitted, lock, waitT, waitF, alive, run, ntrig, 
-                      ndeliv, lastHw, bad, stopping, getPending, inCall, k, g, 
-                      res >>
+                      ndeliv, lastHw, bad, stopping, getPending, inCall, 
+                      is_rendering, set_pending, waitI, setting, k, z, g, res >>
 
 L0 == /\ pc["S"] = "L0"
       /\ IF is_running
@@ -160,30 +192,62 @@ L0 == /\ pc["S"] = "L0"
       /\ UNCHANGED << is_running, triggered, frame_wanted, frame_id, 
                       last_emitted, sfid, lock, waitT, waitF, alive, run, 
                       ntrig, ndeliv, lastHw, bad, stopping, getPending, inCall, 
-                      k, g, res >>
+                      is_rendering, set_pending, waitI, setting, k, z, g, res >>
 
 L1 == /\ pc["S"] = "L1"
       /\ lock = "none"
       /\ lock' = "S"
-      /\ pc' = [pc EXCEPT !["S"] = "L2"]
+      /\ pc' = [pc EXCEPT !["S"] = "L1s"]
       /\ UNCHANGED << is_running, triggered, frame_wanted, frame_id, 
                       last_emitted, sfid, waitT, waitF, alive, run, ntrig, 
-                      ndeliv, lastHw, bad, stopping, getPending, inCall, k, g, 
-                      res >>
+                      ndeliv, lastHw, bad, stopping, getPending, inCall, 
+                      is_rendering, set_pending, waitI, setting, k, z, g, res >>
+
+L1s == /\ pc["S"] = "L1s"
+       /\ IF set_pending > 0
+             THEN /\ lock' = "none"
+                  /\ waitI' = (waitI \cup {"S"})
+                  /\ pc' = [pc EXCEPT !["S"] = "L1w"]
+             ELSE /\ pc' = [pc EXCEPT !["S"] = "L2"]
+                  /\ UNCHANGED << lock, waitI >>
+       /\ UNCHANGED << is_running, triggered, frame_wanted, frame_id, 
+                       last_emitted, sfid, waitT, waitF, alive, run, ntrig, 
+                       ndeliv, lastHw, bad, stopping, getPending, inCall, 
+                       is_rendering, set_pending, setting, k, z, g, res >>
 
 L2 == /\ pc["S"] = "L2"
       /\ IF Enable /\ ~triggered
             THEN /\ lock' = "none"
                  /\ waitT' = TRUE
                  /\ pc' = [pc EXCEPT !["S"] = "L2w"]
-                 /\ UNCHANGED triggered
+                 /\ UNCHANGED << triggered, is_rendering >>
             ELSE /\ triggered' = FALSE
+                 /\ is_rendering' = TRUE
                  /\ lock' = "none"
                  /\ pc' = [pc EXCEPT !["S"] = "L3"]
                  /\ waitT' = waitT
       /\ UNCHANGED << is_running, frame_wanted, frame_id, last_emitted, sfid, 
                       waitF, alive, run, ntrig, ndeliv, lastHw, bad, stopping, 
-                      getPending, inCall, k, g, res >>
+                      getPending, inCall, set_pending, waitI, setting, k, z, g, 
+                      res >>
+
+L1w == /\ pc["S"] = "L1w"
+       /\ "S" \notin waitI
+       /\ pc' = [pc EXCEPT !["S"] = "L1r"]
+       /\ UNCHANGED << is_running, triggered, frame_wanted, frame_id, 
+                       last_emitted, sfid, lock, waitT, waitF, alive, run, 
+                       ntrig, ndeliv, lastHw, bad, stopping, getPending, 
+                       inCall, is_rendering, set_pending, waitI, setting, k, z, 
+                       g, res >>
+
+L1r == /\ pc["S"] = "L1r"
+       /\ lock = "none"
+       /\ lock' = "S"
+       /\ pc' = [pc EXCEPT !["S"] = "L1s"]
+       /\ UNCHANGED << is_running, triggered, frame_wanted, frame_id, 
+                       last_emitted, sfid, waitT, waitF, alive, run, ntrig, 
+                       ndeliv, lastHw, bad, stopping, getPending, inCall, 
+                       is_rendering, set_pending, waitI, setting, k, z, g, res >>
 
 L2w == /\ pc["S"] = "L2w"
        /\ ~waitT
@@ -191,7 +255,8 @@ L2w == /\ pc["S"] = "L2w"
        /\ UNCHANGED << is_running, triggered, frame_wanted, frame_id, 
                        last_emitted, sfid, lock, waitT, waitF, alive, run, 
                        ntrig, ndeliv, lastHw, bad, stopping, getPending, 
-                       inCall, k, g, res >>
+                       inCall, is_rendering, set_pending, waitI, setting, k, z, 
+                       g, res >>
 
 L2r == /\ pc["S"] = "L2r"
        /\ lock = "none"
@@ -199,16 +264,34 @@ L2r == /\ pc["S"] = "L2r"
        /\ pc' = [pc EXCEPT !["S"] = "L2"]
        /\ UNCHANGED << is_running, triggered, frame_wanted, frame_id, 
                        last_emitted, sfid, waitT, waitF, alive, run, ntrig, 
-                       ndeliv, lastHw, bad, stopping, getPending, inCall, k, g, 
-                       res >>
+                       ndeliv, lastHw, bad, stopping, getPending, inCall, 
+                       is_rendering, set_pending, waitI, setting, k, z, g, res >>
 
 L3 == /\ pc["S"] = "L3"
-      /\ sfid' = sfid + 1
-      /\ pc' = [pc EXCEPT !["S"] = "L4"]
+      /\ TRUE
+      /\ pc' = [pc EXCEPT !["S"] = "L3a"]
       /\ UNCHANGED << is_running, triggered, frame_wanted, frame_id, 
-                      last_emitted, lock, waitT, waitF, alive, run, ntrig, 
-                      ndeliv, lastHw, bad, stopping, getPending, inCall, k, g, 
-                      res >>
+                      last_emitted, sfid, lock, waitT, waitF, alive, run, 
+                      ntrig, ndeliv, lastHw, bad, stopping, getPending, inCall, 
+                      is_rendering, set_pending, waitI, setting, k, z, g, res >>
+
+L3a == /\ pc["S"] = "L3a"
+       /\ lock = "none"
+       /\ is_rendering' = FALSE
+       /\ waitI' = {}
+       /\ pc' = [pc EXCEPT !["S"] = "L3b"]
+       /\ UNCHANGED << is_running, triggered, frame_wanted, frame_id, 
+                       last_emitted, sfid, lock, waitT, waitF, alive, run, 
+                       ntrig, ndeliv, lastHw, bad, stopping, getPending, 
+                       inCall, set_pending, setting, k, z, g, res >>
+
+L3b == /\ pc["S"] = "L3b"
+       /\ sfid' = sfid + 1
+       /\ pc' = [pc EXCEPT !["S"] = "L4"]
+       /\ UNCHANGED << is_running, triggered, frame_wanted, frame_id, 
+                       last_emitted, lock, waitT, waitF, alive, run, ntrig, 
+                       ndeliv, lastHw, bad, stopping, getPending, inCall, 
+                       is_rendering, set_pending, waitI, setting, k, z, g, res >>
 
 L4 == /\ pc["S"] = "L4"
       /\ IF frame_wanted
@@ -217,7 +300,7 @@ L4 == /\ pc["S"] = "L4"
       /\ UNCHANGED << is_running, triggered, frame_wanted, frame_id, 
                       last_emitted, sfid, lock, waitT, waitF, alive, run, 
                       ntrig, ndeliv, lastHw, bad, stopping, getPending, inCall, 
-                      k, g, res >>
+                      is_rendering, set_pending, waitI, setting, k, z, g, res >>
 
 L5 == /\ pc["S"] = "L5"
       /\ lock = "none"
@@ -227,15 +310,16 @@ L5 == /\ pc["S"] = "L5"
       /\ pc' = [pc EXCEPT !["S"] = "L0"]
       /\ UNCHANGED << is_running, triggered, last_emitted, sfid, lock, waitT, 
                       alive, run, ntrig, ndeliv, lastHw, bad, stopping, 
-                      getPending, inCall, k, g, res >>
+                      getPending, inCall, is_rendering, set_pending, waitI, 
+                      setting, k, z, g, res >>
 
 TE == /\ pc["S"] = "TE"
       /\ alive' = FALSE
       /\ pc' = [pc EXCEPT !["S"] = "T0"]
       /\ UNCHANGED << is_running, triggered, frame_wanted, frame_id, 
                       last_emitted, sfid, lock, waitT, waitF, run, ntrig, 
-                      ndeliv, lastHw, bad, stopping, getPending, inCall, k, g, 
-                      res >>
+                      ndeliv, lastHw, bad, stopping, getPending, inCall, 
+                      is_rendering, set_pending, waitI, setting, k, z, g, res >>
 
 TX == /\ pc["S"] = "TX"
       /\ TRUE
@@ -243,10 +327,10 @@ TX == /\ pc["S"] = "TX"
       /\ UNCHANGED << is_running, triggered, frame_wanted, frame_id, 
                       last_emitted, sfid, lock, waitT, waitF, alive, run, 
                       ntrig, ndeliv, lastHw, bad, stopping, getPending, inCall, 
-                      k, g, res >>
+                      is_rendering, set_pending, waitI, setting, k, z, g, res >>
 
-Streamer == T0 \/ T1 \/ L0 \/ L1 \/ L2 \/ L2w \/ L2r \/ L3 \/ L4 \/ L5
-               \/ TE \/ TX
+Streamer == T0 \/ T1 \/ L0 \/ L1 \/ L1s \/ L2 \/ L1w \/ L1r \/ L2w \/ L2r
+               \/ L3 \/ L3a \/ L3b \/ L4 \/ L5 \/ TE \/ TX
 
 C0 == /\ pc["C"] = "C0"
       /\ IF run < Runs
@@ -271,7 +355,8 @@ C0 == /\ pc["C"] = "C0"
                                  last_emitted, alive, run, ntrig, ndeliv, 
                                  lastHw, k >>
       /\ UNCHANGED << sfid, lock, waitT, waitF, bad, stopping, getPending, 
-                      inCall, g, res >>
+                      inCall, is_rendering, set_pending, waitI, setting, z, g, 
+                      res >>
 
 C1 == /\ pc["C"] = "C1"
       /\ IF k < MaxTrig
@@ -284,7 +369,7 @@ C1 == /\ pc["C"] = "C1"
       /\ UNCHANGED << is_running, triggered, frame_wanted, frame_id, 
                       last_emitted, sfid, lock, waitT, waitF, alive, run, 
                       ntrig, ndeliv, lastHw, bad, stopping, getPending, inCall, 
-                      g, res >>
+                      is_rendering, set_pending, waitI, setting, z, g, res >>
 
 C2 == /\ pc["C"] = "C2"
       /\ lock = "none"
@@ -296,7 +381,8 @@ C2 == /\ pc["C"] = "C2"
       /\ pc' = [pc EXCEPT !["C"] = "C1"]
       /\ UNCHANGED << is_running, frame_id, last_emitted, sfid, lock, waitF, 
                       alive, run, ndeliv, lastHw, bad, stopping, getPending, 
-                      inCall, g, res >>
+                      inCall, is_rendering, set_pending, waitI, setting, z, g, 
+                      res >>
 
 C3 == /\ pc["C"] = "C3"
       /\ stopping' = TRUE
@@ -304,7 +390,8 @@ C3 == /\ pc["C"] = "C3"
       /\ pc' = [pc EXCEPT !["C"] = "C4"]
       /\ UNCHANGED << triggered, frame_wanted, frame_id, last_emitted, sfid, 
                       lock, waitT, waitF, alive, run, ntrig, ndeliv, lastHw, 
-                      bad, getPending, inCall, k, g, res >>
+                      bad, getPending, inCall, is_rendering, set_pending, 
+                      waitI, setting, k, z, g, res >>
 
 C4 == /\ pc["C"] = "C4"
       /\ lock = "none"
@@ -314,15 +401,16 @@ C4 == /\ pc["C"] = "C4"
       /\ pc' = [pc EXCEPT !["C"] = "C5"]
       /\ UNCHANGED << is_running, frame_id, last_emitted, sfid, lock, waitF, 
                       alive, run, ntrig, ndeliv, lastHw, bad, stopping, 
-                      getPending, inCall, k, g, res >>
+                      getPending, inCall, is_rendering, set_pending, waitI, 
+                      setting, k, z, g, res >>
 
 C5 == /\ pc["C"] = "C5"
       /\ waitF' = FALSE
       /\ pc' = [pc EXCEPT !["C"] = "C6"]
       /\ UNCHANGED << is_running, triggered, frame_wanted, frame_id, 
                       last_emitted, sfid, lock, waitT, alive, run, ntrig, 
-                      ndeliv, lastHw, bad, stopping, getPending, inCall, k, g, 
-                      res >>
+                      ndeliv, lastHw, bad, stopping, getPending, inCall, 
+                      is_rendering, set_pending, waitI, setting, k, z, g, res >>
 
 C6 == /\ pc["C"] = "C6"
       /\ ~alive
@@ -330,18 +418,82 @@ C6 == /\ pc["C"] = "C6"
       /\ pc' = [pc EXCEPT !["C"] = "C0"]
       /\ UNCHANGED << is_running, triggered, frame_wanted, frame_id, 
                       last_emitted, sfid, lock, waitT, waitF, alive, run, 
-                      ntrig, ndeliv, lastHw, bad, getPending, inCall, k, g, 
-                      res >>
+                      ntrig, ndeliv, lastHw, bad, getPending, inCall, 
+                      is_rendering, set_pending, waitI, setting, k, z, g, res >>
 
 C9 == /\ pc["C"] = "C9"
       /\ run' = Runs + 1
       /\ pc' = [pc EXCEPT !["C"] = "Done"]
       /\ UNCHANGED << is_running, triggered, frame_wanted, frame_id, 
                       last_emitted, sfid, lock, waitT, waitF, alive, ntrig, 
-                      ndeliv, lastHw, bad, stopping, getPending, inCall, k, g, 
-                      res >>
+                      ndeliv, lastHw, bad, stopping, getPending, inCall, 
+                      is_rendering, set_pending, waitI, setting, k, z, g, res >>
 
 Controller == C0 \/ C1 \/ C2 \/ C3 \/ C4 \/ C5 \/ C6 \/ C9
+
+Z0 == /\ pc["Z"] = "Z0"
+      /\ IF z < NSets
+            THEN /\ pc' = [pc EXCEPT !["Z"] = "Z1"]
+            ELSE /\ pc' = [pc EXCEPT !["Z"] = "Done"]
+      /\ UNCHANGED << is_running, triggered, frame_wanted, frame_id, 
+                      last_emitted, sfid, lock, waitT, waitF, alive, run, 
+                      ntrig, ndeliv, lastHw, bad, stopping, getPending, inCall, 
+                      is_rendering, set_pending, waitI, setting, k, z, g, res >>
+
+Z1 == /\ pc["Z"] = "Z1"
+      /\ lock = "none"
+      /\ lock' = "Z"
+      /\ setting' = TRUE
+      /\ set_pending' = set_pending + 1
+      /\ pc' = [pc EXCEPT !["Z"] = "Z2"]
+      /\ UNCHANGED << is_running, triggered, frame_wanted, frame_id, 
+                      last_emitted, sfid, waitT, waitF, alive, run, ntrig, 
+                      ndeliv, lastHw, bad, stopping, getPending, inCall, 
+                      is_rendering, waitI, k, z, g, res >>
+
+Z2 == /\ pc["Z"] = "Z2"
+      /\ IF is_rendering
+            THEN /\ lock' = "none"
+                 /\ waitI' = (waitI \cup {"Z"})
+                 /\ pc' = [pc EXCEPT !["Z"] = "Z2w"]
+            ELSE /\ pc' = [pc EXCEPT !["Z"] = "Z3"]
+                 /\ UNCHANGED << lock, waitI >>
+      /\ UNCHANGED << is_running, triggered, frame_wanted, frame_id, 
+                      last_emitted, sfid, waitT, waitF, alive, run, ntrig, 
+                      ndeliv, lastHw, bad, stopping, getPending, inCall, 
+                      is_rendering, set_pending, setting, k, z, g, res >>
+
+Z2w == /\ pc["Z"] = "Z2w"
+       /\ "Z" \notin waitI
+       /\ pc' = [pc EXCEPT !["Z"] = "Z2r"]
+       /\ UNCHANGED << is_running, triggered, frame_wanted, frame_id, 
+                       last_emitted, sfid, lock, waitT, waitF, alive, run, 
+                       ntrig, ndeliv, lastHw, bad, stopping, getPending, 
+                       inCall, is_rendering, set_pending, waitI, setting, k, z, 
+                       g, res >>
+
+Z2r == /\ pc["Z"] = "Z2r"
+       /\ lock = "none"
+       /\ lock' = "Z"
+       /\ pc' = [pc EXCEPT !["Z"] = "Z2"]
+       /\ UNCHANGED << is_running, triggered, frame_wanted, frame_id, 
+                       last_emitted, sfid, waitT, waitF, alive, run, ntrig, 
+                       ndeliv, lastHw, bad, stopping, getPending, inCall, 
+                       is_rendering, set_pending, waitI, setting, k, z, g, res >>
+
+Z3 == /\ pc["Z"] = "Z3"
+      /\ set_pending' = set_pending - 1
+      /\ waitI' = {}
+      /\ lock' = "none"
+      /\ setting' = FALSE
+      /\ z' = z + 1
+      /\ pc' = [pc EXCEPT !["Z"] = "Z0"]
+      /\ UNCHANGED << is_running, triggered, frame_wanted, frame_id, 
+                      last_emitted, sfid, waitT, waitF, alive, run, ntrig, 
+                      ndeliv, lastHw, bad, stopping, getPending, inCall, 
+                      is_rendering, k, g, res >>
+
+Setter == Z0 \/ Z1 \/ Z2 \/ Z2w \/ Z2r \/ Z3
 
 G0 == /\ pc["G"] = "G0"
       /\ IF g < MaxGet /\ run <= Runs
@@ -355,8 +507,8 @@ G0 == /\ pc["G"] = "G0"
                  /\ UNCHANGED inCall
       /\ UNCHANGED << is_running, triggered, frame_wanted, frame_id, 
                       last_emitted, sfid, lock, waitT, waitF, alive, run, 
-                      ntrig, ndeliv, lastHw, bad, stopping, getPending, k, g, 
-                      res >>
+                      ntrig, ndeliv, lastHw, bad, stopping, getPending, 
+                      is_rendering, set_pending, waitI, setting, k, z, g, res >>
 
 G1 == /\ pc["G"] = "G1"
       /\ IF ~is_running
@@ -367,7 +519,7 @@ G1 == /\ pc["G"] = "G1"
       /\ UNCHANGED << is_running, triggered, frame_wanted, frame_id, 
                       last_emitted, sfid, lock, waitT, waitF, alive, run, 
                       ntrig, ndeliv, lastHw, bad, stopping, getPending, inCall, 
-                      k, g >>
+                      is_rendering, set_pending, waitI, setting, k, z, g >>
 
 G2 == /\ pc["G"] = "G2"
       /\ lock = "none"
@@ -377,7 +529,8 @@ G2 == /\ pc["G"] = "G2"
       /\ pc' = [pc EXCEPT !["G"] = "G3"]
       /\ UNCHANGED << is_running, triggered, frame_id, last_emitted, sfid, 
                       waitT, waitF, alive, run, ntrig, ndeliv, lastHw, bad, 
-                      stopping, inCall, k, g, res >>
+                      stopping, inCall, is_rendering, set_pending, waitI, 
+                      setting, k, z, g, res >>
 
 G3 == /\ pc["G"] = "G3"
       /\ IF is_running /\ last_emitted >= frame_id
@@ -388,7 +541,8 @@ G3 == /\ pc["G"] = "G3"
                  /\ UNCHANGED << lock, waitF >>
       /\ UNCHANGED << is_running, triggered, frame_wanted, frame_id, 
                       last_emitted, sfid, waitT, alive, run, ntrig, ndeliv, 
-                      lastHw, bad, stopping, getPending, inCall, k, g, res >>
+                      lastHw, bad, stopping, getPending, inCall, is_rendering, 
+                      set_pending, waitI, setting, k, z, g, res >>
 
 G3w == /\ pc["G"] = "G3w"
        /\ ~waitF
@@ -396,7 +550,8 @@ G3w == /\ pc["G"] = "G3w"
        /\ UNCHANGED << is_running, triggered, frame_wanted, frame_id, 
                        last_emitted, sfid, lock, waitT, waitF, alive, run, 
                        ntrig, ndeliv, lastHw, bad, stopping, getPending, 
-                       inCall, k, g, res >>
+                       inCall, is_rendering, set_pending, waitI, setting, k, z, 
+                       g, res >>
 
 G3r == /\ pc["G"] = "G3r"
        /\ lock = "none"
@@ -404,8 +559,8 @@ G3r == /\ pc["G"] = "G3r"
        /\ pc' = [pc EXCEPT !["G"] = "G3"]
        /\ UNCHANGED << is_running, triggered, frame_wanted, frame_id, 
                        last_emitted, sfid, waitT, waitF, alive, run, ntrig, 
-                       ndeliv, lastHw, bad, stopping, getPending, inCall, k, g, 
-                       res >>
+                       ndeliv, lastHw, bad, stopping, getPending, inCall, 
+                       is_rendering, set_pending, waitI, setting, k, z, g, res >>
 
 G4 == /\ pc["G"] = "G4"
       /\ last_emitted' = frame_id
@@ -425,7 +580,8 @@ G4 == /\ pc["G"] = "G4"
       /\ lock' = "none"
       /\ pc' = [pc EXCEPT !["G"] = "G5"]
       /\ UNCHANGED << is_running, triggered, frame_wanted, frame_id, sfid, 
-                      waitT, waitF, alive, run, ntrig, stopping, inCall, k, g >>
+                      waitT, waitF, alive, run, ntrig, stopping, inCall, 
+                      is_rendering, set_pending, waitI, setting, k, z, g >>
 
 G5 == /\ pc["G"] = "G5"
       /\ g' = g + 1
@@ -433,7 +589,8 @@ G5 == /\ pc["G"] = "G5"
       /\ pc' = [pc EXCEPT !["G"] = "G0"]
       /\ UNCHANGED << is_running, triggered, frame_wanted, frame_id, 
                       last_emitted, sfid, lock, waitT, waitF, alive, run, 
-                      ntrig, ndeliv, lastHw, bad, stopping, getPending, k, res >>
+                      ntrig, ndeliv, lastHw, bad, stopping, getPending, 
+                      is_rendering, set_pending, waitI, setting, k, z, res >>
 
 GX == /\ pc["G"] = "GX"
       /\ TRUE
@@ -441,7 +598,7 @@ GX == /\ pc["G"] = "GX"
       /\ UNCHANGED << is_running, triggered, frame_wanted, frame_id, 
                       last_emitted, sfid, lock, waitT, waitF, alive, run, 
                       ntrig, ndeliv, lastHw, bad, stopping, getPending, inCall, 
-                      k, g, res >>
+                      is_rendering, set_pending, waitI, setting, k, z, g, res >>
 
 Caller == G0 \/ G1 \/ G2 \/ G3 \/ G3w \/ G3r \/ G4 \/ G5 \/ GX
 
@@ -449,12 +606,13 @@ Caller == G0 \/ G1 \/ G2 \/ G3 \/ G3w \/ G3r \/ G4 \/ G5 \/ GX
 Terminating == /\ \A self \in ProcSet: pc[self] = "Done"
                /\ UNCHANGED vars
 
-Next == Streamer \/ Controller \/ Caller
+Next == Streamer \/ Controller \/ Setter \/ Caller
            \/ Terminating
 
 Spec == /\ Init /\ [][Next]_vars
         /\ WF_vars(Streamer)
         /\ WF_vars(Controller)
+        /\ WF_vars(Setter)
         /\ WF_vars(Caller)
 
 Termination == <>(\A self \in ProcSet: pc[self] = "Done")
@@ -464,4 +622,7 @@ NoBad == bad = "none"
 Bounded == sfid <= MaxFid
 StopReturns == stopping ~> ~stopping
 CallReleased == (inCall /\ stopping) ~> ~inCall
+SetReturns == setting ~> ~setting
+\* the buffers are never replaced while a frame is being rendered into them
+NoSetWhileRendering == ~(pc["Z"] = "Z3" /\ is_rendering)
 =============================================================================
